@@ -64,7 +64,7 @@ func C13(tier string) {
 	r := core.NewRNG(run.SeedV, "c13-"+tier)
 	nRand := 60
 	if tier == "thorough" {
-		nRand = 900
+		nRand = 400
 	}
 	if tier == "smoke" {
 		chains = chains[:len(conc)]
